@@ -16,7 +16,11 @@ run_one() { # <patchfile> <prop> <want-or-empty> <label>
   rm -rf "$S/repo"; cp -r /repo "$S/repo"; rm -rf "$S/repo/.git"
   if ! (cd "$S/repo" && patch -p1 -s < "$1"); then echo "SELFTEST-ERROR $4 does not apply"; echo x >> "$S/fail"; return; fi
   mkdir -p "$S/verif"; rm -rf "$S/verif/replays"; cp "$V/known_findings.json" "$V/properties.jsonl" "$S/verif/" 2>/dev/null; rm -rf "$S/verif/contracts"; cp -r "$V/contracts" "$S/verif/contracts"
-  out=$("$V/bin/govc" -repo "$S/repo" -verif "$S/verif" -prop "$2" 2>&1)
+  # a change to a function can only change the obligations of that function's own unit (callers use
+  # its contract, not its body): only the units of the files the patch touches are re-verified here;
+  # the full check of the property (all units) is what seeded/run_all.sh and the checks themselves run
+  FILES=$(grep '^+++ b/' "$1" | sed 's|^+++ b/||' | tr '\n' ',' | sed 's/,$//')
+  out=$("$V/bin/govc" -repo "$S/repo" -verif "$S/verif" -prop "$2" -files "$FILES" 2>&1)
   out="$out
 $(GOVC_REPO="$S/repo" GOVC_VERIF_OUT="$S/verif" "$V/standins/run.sh" "$2" quick "$S/extra.json" 2>&1)"
   echo run >> "$S/count"
